@@ -31,6 +31,9 @@ var c15Corpus = []string{
 	"https://site.test/ok/../\\evil.example", "https://site.test", "https://site.test/after/login",
 	// percent-encoded spellings: harmless as they stand (same-site paths), off-site if a layer decodes them
 	"/%2Fevil.example/x", "/%2f%2fevil.example", "/%5Cevil.example/x", "/%09/evil.example", "/%0A/evil.example", "%2F%2Fevil.example", "/%252Fevil.example",
+	// bytes that are no valid UTF-8: harmless as they stand (a same-site path segment), off-site if a layer
+	// drops or replaces them after the guard has looked
+	"/\xff/evil.example/", "/\xc0/evil.example/x", "/\xe2\x82/evil.example/", "/\xff\xfe/evil.example", "/\xf0\x9f/\\evil.example/",
 	// benign same-site targets that may be followed
 	"/after/login", "/x?y=1&z=2", "/deep/path/here#frag", "/a//b", "/with%20space", "/?next=/inner", "/path:with:colons", "/x?u=http%3A%2F%2Fevil.example",
 	"/%2F/evil.example", "/ /evil.example", "/ünï", "/x;param",
